@@ -364,7 +364,13 @@ func execAsm(c asmCase) asmRun {
 			case 'I':
 				p = callMethod(e, *o.m, o.args, o.label)
 			case 'B':
-				p = safe(func() { e.EmitBytes(o.data) })
+				// the caller owns the slice it passes: it is scribbled over right after the call (streaming records through one
+				// scratch buffer), so an emitter that keeps a reference instead of a copy shows stale bytes in its listing
+				scratch := append([]byte{}, o.data...)
+				p = safe(func() { e.EmitBytes(scratch) })
+				for i := range scratch {
+					scratch[i] ^= 0xA5
+				}
 			case 'L':
 				p = safe(func() { e.Label(o.label) })
 			}
@@ -392,6 +398,10 @@ func execAsm(c asmCase) asmRun {
 					s.labels[o.label] = pc
 				}
 				if o.kind == 'I' {
+					// C03: Len() and PC() advance by exactly the emitted length (2..4 bytes, never a wrapped or stale address)
+					if adv := e.PC() - pc; adv < 1 || adv > 4 || (e.Cap() > 0 && int(adv) != e.Len()-len0) {
+						complain("C03", fmt.Sprintf("accepted %s: PC went %x -> %x while Len() grew by %d", o, pc, e.PC(), e.Len()-len0))
+					}
 					s.starts = append(s.starts, pc)
 					if len(o.m.widths) == 1 && o.m.widths[0] == 0 {
 						wide := e.PC()-pc == 3
@@ -1080,7 +1090,9 @@ func runAsmEnc() {
 					continue // full sweep under one state, every 8th value under the others
 				}
 				e := asm.NewEmitter(make([]byte, 8), true)
-				e.SetBase(0x8000)
+				// the instruction sits in the middle of a bank, or ends on / straddles the end of a bank or of the address space
+				base := []uint32{0x8000, 0x00FFFC, 0x00FFFD, 0x7EFFFE, 0x80FFFF, 0xFFFFFD, 0x018000, 0xC0FFFB}[(i+int(fl>>4))%8]
+				e.SetBase(base)
 				e.AssumeSEP(asm.Flags(fl))
 				pc0, len0 := e.PC(), e.Len()
 				if callMethod(e, *m, a, "lab") {
@@ -1102,7 +1114,7 @@ func runAsmEnc() {
 					rep.Add(report.Finding{Property: "C03", Kind: "disagreement", Clause: "regenerated method row vs the Go method", Input: reqs[i], Expected: f[1], Actual: got})
 				}
 				if int(e.PC()-pc0) != len(got)/2 || e.Len()-len0 != len(got)/2 {
-					rep.Add(report.Finding{Property: "C03", Kind: "violation", Clause: "Len() and PC() advance by the instruction length", Input: reqs[i],
+					rep.Add(report.Finding{Property: "C03", Kind: "violation", Clause: "Len() and PC() advance by the instruction length", Input: fmt.Sprintf("%s (base %06x, tracked flags %02x)", reqs[i], base, fl),
 						Expected: fmt.Sprint(len(got) / 2), Actual: fmt.Sprintf("PC +%d Len +%d", e.PC()-pc0, e.Len()-len0)})
 				}
 			}
@@ -1119,7 +1131,7 @@ func runAsmEnc() {
 	rep.Distinct = total
 	rep.Exhaustive = tier == "thorough"
 	rep.Rule = "every instruction method found by reflection x operand values: all 256 for 8-bit, all 65536 (quick: every 17th + edges) for 16-bit, PRNG samples for multi-byte/24-bit, " +
-		"under each of the four tracked (M,X) states in which the method is accepted; real bytes compared with the name-derived specification bytes and with the regenerated row (Lean driver); " +
+		"under each of the four tracked (M,X) states in which the method is accepted, at bases in mid-bank and with the instruction ending on / straddling a bank end or the top of the address space; real bytes compared with the name-derived specification bytes and with the regenerated row (Lean driver); " +
 		"distinct_nontrivial = accepted (method, operand, width) calls"
 	rep.Emit()
 }
